@@ -828,10 +828,20 @@ func (i *interpreter) syncOf(p value) *syncObj {
 	return o
 }
 
+func callerChain(fr *frame) string {
+	var sb strings.Builder
+	for f, n := fr, 0; f != nil && n < 12; f, n = f.caller, n+1 {
+		if f.fn != nil {
+			sb.WriteString(" <- " + f.fn.String())
+		}
+	}
+	return sb.String()
+}
+
 func extMutexLock(fr *frame, args []value) value {
 	o := fr.i.syncOf(args[0])
 	for o.locked || o.readers > 0 {
-		fr.i.yield("mutex lock")
+		fr.i.yield("mutex lock" + callerChain(fr))
 	}
 	o.locked = true
 	fr.i.madeProgress()
@@ -1380,4 +1390,185 @@ func extRandRead(fr *frame, args []value) value {
 		b[j] = uint8(0x40 + j%32)
 	}
 	return tuple{len(b), iface{}}
+}
+
+// ---------------------------------------------------------------------------
+// encoding/gob (M-GOB): an encoded value is an opaque token that decodes to a deep copy
+// of the exported part of the value (unexported struct fields are dropped, as gob does).
+
+type gobState struct {
+	writers map[*value]value // *Encoder -> io.Writer
+	readers map[*value]value // *Decoder -> io.Reader
+	blobs   map[string]gobBlob
+	next    int
+}
+
+type gobBlob struct {
+	t types.Type
+	v value
+}
+
+func (i *interpreter) gob() *gobState {
+	if i.gobst == nil {
+		i.gobst = &gobState{writers: map[*value]value{}, readers: map[*value]value{}, blobs: map[string]gobBlob{}}
+	}
+	return i.gobst
+}
+
+func init() {
+	externals["encoding/gob.Register"] = func(fr *frame, a []value) value { return nil }
+	externals["encoding/gob.RegisterName"] = func(fr *frame, a []value) value { return nil }
+	externals["encoding/gob.NewEncoder"] = func(fr *frame, a []value) value {
+		t := fr.i.namedType("encoding/gob", "Encoder")
+		cell := zero(t)
+		p := &cell
+		fr.i.gob().writers[p] = a[0]
+		return p
+	}
+	externals["encoding/gob.NewDecoder"] = func(fr *frame, a []value) value {
+		t := fr.i.namedType("encoding/gob", "Decoder")
+		cell := zero(t)
+		p := &cell
+		fr.i.gob().readers[p] = a[0]
+		return p
+	}
+	externals["(*encoding/gob.Encoder).Encode"] = func(fr *frame, a []value) value {
+		i := fr.i
+		g := i.gob()
+		w, ok := g.writers[a[0].(*value)]
+		if !ok {
+			panic(engineError("gob: unknown encoder"))
+		}
+		it := a[1].(iface)
+		if it.t == nil {
+			return i.newError("gob: cannot encode nil")
+		}
+		g.next++
+		tok := fmt.Sprintf("gob:%d;", g.next)
+		g.blobs[tok] = gobBlob{t: it.t, v: gobCopy(it.t, it.v, map[*value]*value{})}
+		res, ok2 := i.invoke(fr, w.(iface), "Write", strBytes(tok))
+		if !ok2 {
+			panic(engineError("gob: writer has no Write method"))
+		}
+		return res.(tuple)[1]
+	}
+	externals["(*encoding/gob.Decoder).Decode"] = func(fr *frame, a []value) value {
+		i := fr.i
+		g := i.gob()
+		r, ok := g.readers[a[0].(*value)]
+		if !ok {
+			panic(engineError("gob: unknown decoder"))
+		}
+		// read one token
+		var tok []value
+		for {
+			buf := make([]value, 64)
+			for k := range buf {
+				buf[k] = uint8(0)
+			}
+			res, ok2 := i.invoke(fr, r.(iface), "Read", buf)
+			if !ok2 {
+				panic(engineError("gob: reader has no Read method"))
+			}
+			n := int(asInt64(res.(tuple)[0]))
+			tok = append(tok, buf[:n]...)
+			if e := res.(tuple)[1].(iface); e.t != nil || n == 0 {
+				break
+			}
+		}
+		s, isConc := mkstr(tok).(string)
+		if !isConc {
+			panic(engineError("gob: symbolic stream"))
+		}
+		blob, ok3 := g.blobs[s]
+		if !ok3 {
+			return i.newError("gob: undecodable stream (EOF or corrupt)")
+		}
+		dst := a[1].(iface)
+		pt, isPtr := dst.t.Underlying().(*types.Pointer)
+		if !isPtr || !types.Identical(pt.Elem().Underlying(), blob.t.Underlying()) {
+			return i.newError("gob: type mismatch")
+		}
+		p := dst.v.(*value)
+		store(pt.Elem(), p, gobCopy(blob.t, blob.v, map[*value]*value{}))
+		return iface{}
+	}
+}
+
+// gobCopy deep-copies v of static type t, zeroing unexported struct fields.
+func gobCopy(t types.Type, v value, memo map[*value]*value) value {
+	switch tt := t.Underlying().(type) {
+	case *types.Struct:
+		src := v.(structure)
+		out := make(structure, len(src))
+		for f := 0; f < tt.NumFields(); f++ {
+			if tt.Field(f).Exported() {
+				out[f] = gobCopy(tt.Field(f).Type(), src[f], memo)
+			} else {
+				out[f] = zero(tt.Field(f).Type())
+			}
+		}
+		return out
+	case *types.Array:
+		src := v.(array)
+		out := make(array, len(src))
+		for k := range src {
+			out[k] = gobCopy(tt.Elem(), src[k], memo)
+		}
+		return out
+	case *types.Slice:
+		src, _ := v.([]value)
+		if src == nil {
+			return []value(nil)
+		}
+		out := make([]value, len(src))
+		for k := range src {
+			out[k] = gobCopy(tt.Elem(), src[k], memo)
+		}
+		return out
+	case *types.Map:
+		src, _ := v.(*omap)
+		if src == nil {
+			return (*omap)(nil)
+		}
+		out := &omap{keyType: src.keyType, idx: make(map[interface{}][]int)}
+		for k := range src.keys {
+			if !src.live[k] {
+				continue
+			}
+			key := gobCopy(tt.Key(), src.keys[k], memo)
+			val := gobCopy(tt.Elem(), src.vals[k], memo)
+			p := len(out.keys)
+			out.keys = append(out.keys, key)
+			out.vals = append(out.vals, val)
+			out.live = append(out.live, true)
+			out.n++
+			if hasSymDeep(key) {
+				out.symKeys++
+			} else {
+				hk := hashKey(key)
+				out.idx[hk] = append(out.idx[hk], p)
+			}
+		}
+		return out
+	case *types.Pointer:
+		src := v.(*value)
+		if src == nil {
+			return (*value)(nil)
+		}
+		if c, ok := memo[src]; ok {
+			return c
+		}
+		cell := new(value)
+		memo[src] = cell
+		*cell = gobCopy(tt.Elem(), *src, memo)
+		return cell
+	case *types.Interface:
+		it := v.(iface)
+		if it.t == nil {
+			return it
+		}
+		return iface{t: it.t, v: gobCopy(it.t, it.v, memo)}
+	}
+	return v
 }
